@@ -96,9 +96,9 @@ def classes():
 #   ('G', i) ('S', a, b, c) ('I',) ('L',) ('T', i, v) ('D', i) ('X', a, b, c) ('A', v) ('E', v) ('N', i, v)
 #   ('P', i) ('R',) ('C',) ('CI',) ('CC',) ('CF', tags) ('AL', n) ('EM',)
 EXC = {'IndexError': 1, 'ValueError': 2, 'TypeError': 3, 'AssertionError': 4}
-KEYS = {1: 'oracle:getitem-slice:own-index-arithmetic',
-        2: 'oracle:construct-from-empty-list:IndexError',
-        3: 'oracle:extend:single-valued-operand-appends-matrix-rows',
+# root causes the model still mirrors.  (Repaired in /repo and therefore NOT listed, so that a regression is a VIOLATION:
+# slice index arithmetic -- fix 639aa3a; extend by a single-valued object appending matrix rows -- fix e8a8671.)
+KEYS = {2: 'oracle:construct-from-empty-list:IndexError',
         4: 'oracle:single-value-required:empty-object-stored-as-element'}
 OPNAME = {'G': 'getitem', 'S': 'getitem-slice', 'I': 'iter', 'L': 'len', 'T': 'setitem', 'D': 'delitem', 'X': 'delitem-slice',
           'A': 'append', 'E': 'extend', 'N': 'insert', 'P': 'pop', 'R': 'reverse', 'C': 'clear', 'CI': 'ctor-from-iteration',
@@ -286,12 +286,6 @@ def impl_step(k, x, op):
                 out = [7, 0]
     except Exception as ex:  # noqa: the exception kind IS the observation
         out = [9, EXC.get(type(ex).__name__, 99)]
-    if kind == 'E' and op[1][0] == 's' and len(op[1][1]) == 1 and out == [0]:
-        # model predicts the rows of the operand's matrix; check their content too
-        rows = x.data[-k.nrows:]
-        m = np.asarray(operand.A)
-        if len(x.data) >= k.nrows and all(k.tag(a) == -2 for a in rows) and not np.array_equal(np.array(rows), m):
-            out = [66]
     return x, out + k.state(x)
 
 
@@ -375,7 +369,6 @@ let run line =
   let zlist () = let k = int_of_string (next ()) in
     let rec go i acc = if i = k then List.rev acc else (let v = zint () in go (i + 1) (v :: acc)) in go 0 [] in
   let operand () = let t = next () in if t = "o" then Other else Same (zlist ()) in
-  let nr = zint () in
   let own = (next () = "1") in
   let n0 = int_of_string (next ()) in
   let ops = ref [] in
@@ -404,7 +397,7 @@ let run line =
     ops := o :: !ops
   done;
   let st = List.init n0 (fun k -> z_of_int (k + 1)) in
-  let res = lockstep { nrows = nr; own_slice = own } st (List.rev !ops) in
+  let res = lockstep own st (List.rev !ops) in
   let b = Buffer.create 256 in
   List.iteri (fun i l ->
     if i > 0 then Buffer.add_char b (if i mod 3 = 0 then '|' else ',');
@@ -440,9 +433,9 @@ class Model:
         self.exe = ctx.build_driver('C10', EXTRACT, DRIVER)
         self.cache = {}
 
-    def run(self, nrows, own, cases):
+    def run(self, own, cases):
         """cases: list of (n0, [ops]); returns per case the list of (m, s, code) per step"""
-        lines = [f"{nrows} {1 if own else 0} {n0} " + ' '.join(op_tokens(o) for o in ops) for n0, ops in cases]
+        lines = [f"{1 if own else 0} {n0} " + ' '.join(op_tokens(o) for o in ops) for n0, ops in cases]
         with self.ctx.timed('model-driver'):
             outs = self.ctx.run_driver(self.exe, lines, timeout=1800) if lines else []
         if len(outs) != len(lines):
@@ -468,7 +461,7 @@ class Cmp:
                       'implementation': I, 'python_list': L, 'model': M, 'spec': S,
                       'encoding': 'result: [0]=None [1,n,tags..]=object [2,n,(len,tags..)..]=objects [3,n]=int [9,kind]=raised '
                                   '(1 IndexError 2 ValueError 3 TypeError 4 AssertionError 8 any 99 other); then len and tags of the state; '
-                                  'negative tags: -1 [] stored, -2 matrix row stored, -3 nested list stored'}
+                                  'negative tags: -1 [] stored, -2 some other non-element stored, -3 nested list stored'}
         if S != L:
             ctx.fail(f'spec:{name}', f"the Coq specification of {name} disagrees with a real Python list: spec {S} list {L} for {op_py(op)}",
                      rp(), no_input=True)
@@ -555,9 +548,9 @@ def exhaustive_sequences(ctx, model, cmp, ks, maxlen, level):
     mcache = {}
     for k in ks:
         for n0 in range(5):
-            key = (k.nrows, k.own, n0)
+            key = (k.own, n0)
             if key not in mcache:
-                mcache[key] = model.run(k.nrows, k.own, [(n0, p) for p in paths])
+                mcache[key] = model.run(k.own, [(n0, p) for p in paths])
             mres = mcache[key]
             with ctx.timed('impl-sequences'):
                 x0, l0 = k.build(list(range(1, n0 + 1))), list(range(1, n0 + 1))
@@ -658,7 +651,7 @@ def random_sequences(ctx, model, cmp, ks, nseq):
         for j in range(nseq):
             nsteps = 60 if j % 4 == 0 else int(ctx.rng.integers(1, 61))
             hs.append(random_ops(ctx.rng, nsteps))
-        mres = model.run(k.nrows, k.own, hs)
+        mres = model.run(k.own, hs)
         with ctx.timed('impl-random'):
             for (n0, ops), mr in zip(hs, mres):
                 ctx.case((k.name, 'random', n0, tuple(map(op_tokens, ops))))
@@ -679,9 +672,9 @@ def grid(ctx, model, cmp, ks):
     terms, meta = [], []
     for own in kinds:
         for n in range(6):
-            terms.append(f"grid_eval_slices (Build_cls 4 {'true' if own else 'false'}) {n}")
+            terms.append(f"grid_eval_slices (Build_cls {'true' if own else 'false'}) {n}")
             meta.append((own, n, 'S'))
-            terms.append(f"grid_eval_index (Build_cls 4 {'true' if own else 'false'}) {n}")
+            terms.append(f"grid_eval_index (Build_cls {'true' if own else 'false'}) {n}")
             meta.append((own, n, 'G'))
     vals = ctx.coq_eval(COQ_HEADER, terms, name='grid', chunk=4)
     kernel = {}
@@ -691,7 +684,7 @@ def grid(ctx, model, cmp, ks):
     # extraction cross-check: the driver must print what the kernel computed
     for own in kinds:
         for n in range(6):
-            d = model.run(4, own, [(n, [('S',) + s]) for s in slices] + [(n, [('G', i)]) for i in range(-7, 8)])
+            d = model.run(own, [(n, [('S',) + s]) for s in slices] + [(n, [('G', i)]) for i in range(-7, 8)])
             got = [x[0] for x in d]
             exp = kernel[(own, n, 'S')] + kernel[(own, n, 'G')]
             ctx.count('extraction-crosscheck', len(exp))
@@ -720,16 +713,16 @@ def grid(ctx, model, cmp, ks):
                                      {'class': k.name, 'length': n, 'op': op_py(op)})
                             x = k.build(l)
     ctx.stats['slice-grid-cells-differing-from-list'] = census
-    ctx.sample({'kind': 'grid', 'cells per class': 6 * (len(slices) + 15), 'differing (C10_slice_grid_census says 10204 for SMUserList.__getitem__)': census})
+    ctx.sample({'kind': 'grid', 'cells per class': 6 * (len(slices) + 15), 'differing from the list (C10_slice_grid_census: 0 for SMUserList.__getitem__, 7422 for the delegating classes)': census})
 
 
 def kernel_crosscheck(ctx, model, ks, nseq):
     """random histories evaluated by vm_compute inside Coq must equal the extracted driver's output"""
     k = ks[0]
     hs = [random_ops(ctx.rng, int(ctx.rng.integers(1, 25))) for _ in range(nseq)]
-    for nrows, own in sorted({(k.nrows, k.own) for k in ks}):
-        d = model.run(nrows, own, hs)
-        terms = [f"lockstep (Build_cls {nrows} {'true' if own else 'false'}) (iota {n0}) [{'; '.join(op_coq(o) for o in ops)}]" for n0, ops in hs]
+    for own in sorted({k.own for k in ks}):
+        d = model.run(own, hs)
+        terms = [f"lockstep (Build_cls {'true' if own else 'false'}) (iota {n0}) [{'; '.join(op_coq(o) for o in ops)}]" for n0, ops in hs]
         vals = ctx.coq_eval(COQ_HEADER, terms, name='xcheck', chunk=200)
         for (n0, ops), dv, v in zip(hs, d, vals):
             ll = parse_coq_ll(v)
@@ -822,7 +815,7 @@ def replay(ctx, path):
     ops = [_unjs(o) for o in rp['ops']]
     n0 = rp['start_length']
     model = Model(ctx)
-    mres = model.run(k.nrows, k.own, [(n0, ops)])[0]
+    mres = model.run(k.own, [(n0, ops)])[0]
     cmp = Cmp(ctx)
     run_history(ctx, cmp, k, n0, ops, mres, 'replay')
     x, l = k.build(list(range(1, n0 + 1))), list(range(1, n0 + 1))
